@@ -482,9 +482,11 @@ materialize(MatJob &mj, const JobSpec &s, IMB_MGR *hm, const LibImage *img)
                         uint32_t nseg = (uint32_t) cuts.size() - 1;
                         mj.extra[1] = arena::alloc(nseg * sizeof(struct IMB_SGL_IOV), s.place[O_CTX], 8);
                         struct IMB_SGL_IOV *iov = (struct IMB_SGL_IOV *) mj.extra[1].p;
+                        if (s.scatter)
+                                segs_alloc(mj.segs, mj.src + s.c_off, cuts, mix64(s.seed, 0x5CA7 + s.scatter), s.inplace);
                         for (uint32_t i = 0; i < nseg; i++) {
-                                iov[i].in = mj.src + s.c_off + cuts[i];
-                                iov[i].out = mj.out + cuts[i];
+                                iov[i].in = mj.segs.active() ? mj.segs.src(i, mj.src + s.c_off + cuts[i]) : mj.src + s.c_off + cuts[i];
+                                iov[i].out = mj.segs.active() ? mj.segs.dst(i, mj.out + cuts[i]) : mj.out + cuts[i];
                                 iov[i].len = cuts[i + 1] - cuts[i];
                         }
                         j.sgl_io_segs = iov;
@@ -505,7 +507,81 @@ mat_release(MatJob &mj)
                 arena::release(mj.obj[i]);
         for (auto &e : mj.extra)
                 arena::release(e);
+        segs_release(mj.segs);
         mj.live = false;
+}
+
+void
+segs_alloc(SegBufs &sb, const uint8_t *src, const std::vector<uint32_t> &cuts, uint64_t seed, bool inplace)
+{
+        sb.cuts = cuts;
+        sb.inplace = inplace;
+        const size_t n = cuts.size() ? cuts.size() - 1 : 0;
+        sb.in.assign(n, arena::Obj());
+        sb.out.assign(n, arena::Obj());
+        for (size_t i = 0; i < n; i++) {
+                const uint32_t len = cuts[i + 1] - cuts[i];
+                if (!len)
+                        continue;
+                const uint64_t h = mix64(seed, i);
+                const int pl_in = (h % 100) < 45 ? arena::PLACE_START : (h % 100) < 85 ? arena::PLACE_END : arena::PLACE_MID;
+                const int pl_out = ((h >> 8) % 100) < 45 ? arena::PLACE_START : ((h >> 8) % 100) < 85 ? arena::PLACE_END : arena::PLACE_MID;
+                sb.in[i] = arena::alloc(len, pl_in, 1, pl_in == arena::PLACE_MID ? (uint32_t) ((h >> 16) & 63) : 0);
+                memcpy(sb.in[i].p, src + cuts[i], len);
+                if (!inplace) {
+                        sb.out[i] = arena::alloc(len, pl_out, 1, pl_out == arena::PLACE_MID ? (uint32_t) ((h >> 24) & 63) : 0);
+                        memset(sb.out[i].p, 0xD5, len);
+                }
+        }
+}
+
+void
+segs_gather(const SegBufs &sb, uint8_t *out)
+{
+        for (size_t i = 0; i < sb.in.size(); i++) {
+                const uint32_t len = sb.cuts[i + 1] - sb.cuts[i];
+                if (!len)
+                        continue;
+                const arena::Obj &o = sb.inplace ? sb.in[i] : sb.out[i];
+                if (o.valid())
+                        memcpy(out + sb.cuts[i], o.p, len);
+        }
+}
+
+std::string
+segs_check(const SegBufs &sb, const uint8_t *src_pre)
+{
+        char t[160];
+        uint64_t where = 0;
+        for (size_t i = 0; i < sb.in.size(); i++) {
+                if (sb.in[i].valid() && arena::canary_broken(sb.in[i], &where)) {
+                        snprintf(t, sizeof t, "write outside source segment %zu (len %u) at offset %ld", i, sb.in[i].len,
+                                 (long) ((uintptr_t) where - (uintptr_t) sb.in[i].p));
+                        return t;
+                }
+                if (sb.out[i].valid() && arena::canary_broken(sb.out[i], &where)) {
+                        snprintf(t, sizeof t, "write outside destination segment %zu (len %u) at offset %ld", i, sb.out[i].len,
+                                 (long) ((uintptr_t) where - (uintptr_t) sb.out[i].p));
+                        return t;
+                }
+                if (!sb.inplace && sb.in[i].valid() && src_pre && memcmp(sb.in[i].p, src_pre + sb.cuts[i], sb.in[i].len) != 0) {
+                        snprintf(t, sizeof t, "source segment %zu modified by an out-of-place operation", i);
+                        return t;
+                }
+        }
+        return "";
+}
+
+void
+segs_release(SegBufs &sb)
+{
+        for (auto &o : sb.in)
+                arena::release(o);
+        for (auto &o : sb.out)
+                arena::release(o);
+        sb.in.clear();
+        sb.out.clear();
+        sb.cuts.clear();
 }
 
 void
@@ -515,6 +591,8 @@ mat_collect(const MatJob &mj, int status, JobOut &o)
         o.dst.clear();
         o.tag.clear();
         o.niv.clear();
+        if (mj.segs.active() && mj.out)
+                segs_gather(mj.segs, mj.out); // scattered segments: assemble the output where a contiguous job would put it
         if (mj.out && mj.spec.cipher != IMB_CIPHER_NULL) {
                 if (mj.spec.inplace || !mj.obj[O_DST].valid())
                         o.dst.assign(mj.out, mj.out + (spec_bitpath(mj.spec) ? mj.src_len : mj.out_len));
@@ -596,6 +674,11 @@ mat_check_memory(const MatJob &mj, bool completed)
         for (auto &e : mj.extra)
                 if (e.valid() && arena::canary_broken(e, &where))
                         return "write outside auxiliary object";
+        if (mj.segs.active()) {
+                std::string e = segs_check(mj.segs, mj.pre[O_SRC].empty() ? nullptr : mj.pre[O_SRC].data() + s.c_off);
+                if (!e.empty())
+                        return e;
+        }
         // read-only objects must be byte-identical to their pre-image
         static const int ro[] = { O_IV, O_AAD, O_KEYC, O_KEYC2, O_KEYA, O_KEYA2, O_KEYA3, O_AIV };
         for (int id : ro) {
